@@ -117,7 +117,7 @@ impl<SystemType : System> SysCache<SystemType> {
 //@ ret res
 //@ param Tracked(w): Tracked<&mut World>
 //@ addarg 3 /cache\.restore_file|downloader_cache\.restore_file|system\.set_is_executable/ Tracked(w)
-//@ rewrite 1 /println!\("Warning: failed to set executable"\);/ => <empty>
+//@ rewrite * /println!\([^;]*\);/ => <empty>
 //@ spec
     requires old(cache).wf(*old(w)), inv_cache(*old(w)), no_urls(*downloader_cache_opt),
         !under(old(w).cache_dir, target_info.path@), !old(w).files.contains_key(target_info.path@),
